@@ -14,6 +14,15 @@ def jobs(tier, names=None, prop="C07"):
         if n in ("riscv", "msp430"): d["STRIP_ANNOT"] = None
         # the opcode space is partitioned by the high nibble of the opcode-bearing byte so that all cores work on one CPU
         pb = {"msp430": 1, "avr8": 1, "tms9900": 0, "riscv": 0, "6502": 0, "z80": 0, "8051": 0, "stm8": 0, "68000": 0, "pdp11": 1, "lc3": 0, "6800": 0, "6809": 0, "68hc08": 0}.get(n)
+        if n == "riscv":
+            # RV32I major opcodes (bits 6..0 of the first byte) and the three compressed quadrants, one job each
+            parts = [("load", 0x7f, 0x03), ("opimm", 0x7f, 0x13), ("auipc", 0x7f, 0x17), ("store", 0x7f, 0x23), ("op", 0x7f, 0x33), ("lui", 0x7f, 0x37),
+                     ("branch", 0x7f, 0x63), ("jalr", 0x7f, 0x67), ("jal", 0x7f, 0x6f), ("fence", 0x7f, 0x0f), ("system", 0x7f, 0x73), ("c0", 3, 0), ("c1", 3, 1), ("c2", 3, 2)]
+            for nm, mask, val in parts:
+                dd = dict(d, PART_BYTE=0, PART_MASK=mask, PART_VAL=val)
+                js.append(vp.Job("roundtrip.riscv.%s" % nm, "roundtrip.cpp", dd, max_paths=100000 if tier == "quick" else 1000000,
+                                 timeout=240 if tier == "quick" else 1500, allow_partial=True, min_completed=0, render_classes=2))
+            continue
         if pb is None:
             js.append(vp.Job("roundtrip.%s" % n, "roundtrip.cpp", d, max_paths=100000 if tier == "quick" else 1000000,
                              timeout=300 if tier == "quick" else 2400, allow_partial=True, min_completed=5))
@@ -21,7 +30,7 @@ def jobs(tier, names=None, prop="C07"):
             for part in range(16):
                 dd = dict(d, PART_BYTE=pb, PART=part)
                 js.append(vp.Job("roundtrip.%s.p%x" % (n, part), "roundtrip.cpp", dd, max_paths=100000 if tier == "quick" else 1000000,
-                                 timeout=240 if tier == "quick" else 1500, allow_partial=True, min_completed=0))
+                                 timeout=240 if tier == "quick" else 1500, allow_partial=True, min_completed=0, render_classes=2))
     return js
 
 def main(tier):
